@@ -6,6 +6,7 @@
 From Coq Require Import String List Arith Bool QArith Lia.
 Import ListNotations.
 Require Import Plinio.Base.Qx Plinio.Model.MpsNet Plinio.Model.MpsCost Plinio.Proofs.MpsCost Plinio.Model.MpsCostNet Plinio.Proofs.MpsCostNet.
+Require Import Plinio.Gen.MpsCostGen Plinio.Proofs.MpsCostGen.
 Open Scope Q_scope.
 
 (* sum_ij tin_i tw_j m_ij with one-hot tin, tw = m[ki][kw], for every table *)
@@ -183,6 +184,145 @@ Proof.
     eapply feeds_here; [reflexivity|]. left. reflexivity.
 Qed.
 
+(* ------------------------------------------------------------------ second tie, by translation (Gen/MpsCostGen.v)
+   translator/mpscost2coq.py rewrites Gen/MpsCostGen.v on every run from the SOURCE of the tree under test:
+   MPSConv1d / MPSConv2d / MPSLinear .out_features_eff / .get_modified_vars / .get_cost, MPSPerChannelQtz.out_features_eff,
+   MPSIdentity / MPSAdd .get_cost, mps_layer_map, MPS._single_cost_fn_map / ._get_single_cost / the cost_specification setter,
+   DNAS._create_cost_fn_map / .get_cost / .cost.  Proofs/MpsCostGen.v proves the generated functions equal to the hand model
+   (layer_cost, modified_vars true, eff_out, row_means, mps_net_cost_sh .. false); a change of that code changes the generated
+   text and these theorems stop checking unless the new code computes the same function.  `reads cf P`: the cost function cf
+   depends on its dictionary only through what it returns for the keys in P (anykey: all keys; costkey: the keys of
+   Model/MpsCost.v).  The three open findings are behaviours of the generated functions too (not repaired). *)
+
+(* out_features_eff: the static count (per-layer search), or columns minus the mass of the 0-bit row (per-channel) *)
+Theorem C05_generated_out_features_eff_is_model : forall self th C z,
+  conv1d_out_features_eff_gen self = eout_of LConv self /\ conv2d_out_features_eff_gen self = eout_of LConv self /\
+  linear_out_features_eff_gen self = eout_of LLin self /\ pcq_out_features_eff_gen (mkMat th C) z = eff_out th z C.
+Proof. intros. exact (conj (conv1d_out_features_eff_gen_eq self) (conj (conv2d_out_features_eff_gen_eq self) (conj (linear_out_features_eff_gen_eq self) (pcq_out_features_eff_gen_eq th C z)))). Qed.
+(* get_modified_vars: vars(self) with the effective counts under the PyTorch names of the layer type, key by key *)
+Theorem C05_generated_modified_vars_is_model : forall self,
+  same_on anykey (conv1d_get_modified_vars_gen self) (modified_vars true LConv (gl_vars self) (gl_ein self) (eout_of LConv self)) /\
+  same_on anykey (conv2d_get_modified_vars_gen self) (modified_vars true LConv (gl_vars self) (gl_ein self) (eout_of LConv self)) /\
+  same_on anykey (linear_get_modified_vars_gen self) (modified_vars true LLin (gl_vars self) (gl_ein self) (eout_of LLin self)).
+Proof. intros. exact (conj (conv1d_get_modified_vars_gen_eq self) (conj (conv2d_get_modified_vars_gen_eq self) (linear_get_modified_vars_gen_eq self))). Qed.
+Theorem C05_generated_spec_keys_by_type : forall self,
+  (lookup "in_channels" (conv1d_get_modified_vars_gen self) = Some (gl_ein self) /\ lookup "out_channels" (conv1d_get_modified_vars_gen self) = Some (eout_of LConv self)) /\
+  (lookup "in_channels" (conv2d_get_modified_vars_gen self) = Some (gl_ein self) /\ lookup "out_channels" (conv2d_get_modified_vars_gen self) = Some (eout_of LConv self)) /\
+  (lookup "in_features" (linear_get_modified_vars_gen self) = Some (gl_ein self) /\ lookup "out_features" (linear_get_modified_vars_gen self) = Some (eout_of LLin self)).
+Proof. exact gen_spec_keys_by_type. Qed.
+(* get_cost reduced by torch.sum = the hand model's layer cost on the dictionary get_cost builds, for EVERY cost function *)
+Theorem C05_generated_get_cost_is_model : forall self cf out_shape, reads cf anykey ->
+  let lc := fun t => layer_cost cf (base_spec t self out_shape) (iq_precision (gl_in self)) (iq_theta_alpha (gl_in self)) (wq_precision (gl_w self)) (tw_of_w (gl_w self)) in
+  tsum (conv1d_get_cost_gen self cf out_shape) == lc LConv /\ tsum (conv2d_get_cost_gen self cf out_shape) == lc LConv /\
+  tsum (linear_get_cost_gen self cf out_shape) == lc LLin.
+Proof. intros self cf out_shape H. exact (conj (conv1d_get_cost_gen_eq self cf out_shape H) (conj (conv2d_get_cost_gen_eq self cf out_shape H) (linear_get_cost_gen_eq self cf out_shape H))). Qed.
+Theorem C05_generated_identity_add_cost : forall self cf out_shape,
+  tsum (identity_get_cost_gen self cf out_shape) == 0 /\ ((forall s, cf s == 0) -> tsum (add_get_cost_gen self cf out_shape) == 0).
+Proof. intros. exact (conj (identity_get_cost_gen_eq self cf out_shape) (add_get_cost_gen_zero self cf out_shape)). Qed.
+
+(* the sentences of C05 on the generated functions.  Eval / hard mode, per-layer search: cost_fn at the selected precisions *)
+Theorem C05_generated_cost_onehot : forall dim1 t vars ein pin pw ki kw cf out_shape, reads cf anykey -> (ki < length pin)%nat -> (kw < length pw)%nat ->
+  let self := mkGL vars ein (mkInQ pin (onehotQ ki (length pin))) (WPerLayer pw (onehotQ kw (length pw))) in
+  tsum (gen_get_cost dim1 t self cf out_shape)
+  == entry cf (base_spec (match t with LLin => LLin | _ => LConv end) self out_shape) (nth ki pin 0) (nth kw pw 0) 1.
+Proof. exact gen_cost_onehot. Qed.
+Theorem C05_generated_params_bit_exact : forall dim1 t cin cout kh kw oh ow ein pin pw ki kw', (ki < length pin)%nat -> (kw' < length pw)%nat ->
+  tsum (gen_get_cost dim1 t (obj_of t cin cout kh kw ein pin (onehotQ ki (length pin)) (WPerLayer pw (onehotQ kw' (length pw)))) (params_bit t) (shape_of oh ow))
+  == weights_of t kh kw ein cout * nth kw' pw 0.
+Proof. exact gen_params_bit_exact. Qed.
+Theorem C05_generated_ops_bit_exact : forall dim1 t cin cout kh kw oh ow ein pin pw ki kw', (ki < length pin)%nat -> (kw' < length pw)%nat ->
+  tsum (gen_get_cost dim1 t (obj_of t cin cout kh kw ein pin (onehotQ ki (length pin)) (WPerLayer pw (onehotQ kw' (length pw)))) (ops_bit t) (shape_of oh ow))
+  == macs_of t kh kw oh ow ein cout * nth kw' pw 0 * nth ki pin 0.
+Proof. exact gen_ops_bit_exact. Qed.
+(* per-channel search: exact without a 0-bit row; with one, scaled by the alive fraction (open finding, reproduced) *)
+Theorem C05_generated_perchannel_exact_nozero : forall dim1 cin cout kh kw oh ow ein C pin pw th ki, (ki < length pin)%nat -> ~ C == 0 ->
+  tsum (gen_get_cost dim1 LConv (obj_of LConv cin cout kh kw ein pin (onehotQ ki (length pin)) (WPerChannel pw (mkMat th C) None)) (params_bit LConv) (shape_of oh ow))
+  == kh * kw * ein * dot (map qsum th) pw.
+Proof. exact gen_perchannel_exact_nozero. Qed.
+Theorem C05_generated_perchannel_zero_scaled : forall dim1 cin cout kh kw oh ow ein C z pin pw th ki, (ki < length pin)%nat -> ~ C == 0 ->
+  tsum (gen_get_cost dim1 LConv (obj_of LConv cin cout kh kw ein pin (onehotQ ki (length pin)) (WPerChannel pw (mkMat th C) (Some z))) (params_bit LConv) (shape_of oh ow))
+  == (C - qsum (nth z th [])) / C * (kh * kw * ein * dot (map qsum th) pw).
+Proof. exact gen_perchannel_zero_scaled. Qed.
+Theorem C05_generated_perchannel_zero_refuted : exists dim1 cin cout kh kw ein C z pin pw th ki,
+  (ki < length pin)%nat /\ nth z pw 1 == 0 /\ Forall (fun col => qsum col == 1) [map (fun r => nth 0 r 0) th; map (fun r => nth 7 r 0) th] /\
+  ~ tsum (gen_get_cost dim1 LConv (obj_of LConv cin cout kh kw ein pin (onehotQ ki (length pin)) (WPerChannel pw (mkMat th C) (Some z))) (params_bit LConv) (shape_of 1 1))
+    == kh * kw * ein * dot (map qsum th) pw.
+Proof. exact gen_perchannel_zero_refuted. Qed.
+
+(* network level: MPS._get_single_cost with the map MPS._single_cost_fn_map builds, on the objects of an IR network
+   (gmps_of: Gen/MpsCostGen.v footer), is the hand model's mps_net_cost_sh (the code as it is: intended = false) *)
+Theorem C05_generated_net_cost_is_model : forall dim1 net lays names shared cf,
+  names_okb net lays names = true -> no_unit_conv net -> (forall t, reads (cf t) costkey) ->
+  mps_get_single_cost_gen (gmps_of dim1 net lays names) (cs_of dim1 shared cf)
+                          (mps_single_cost_fn_map_gen (gmps_of dim1 net lays names) (cs_of dim1 shared cf))
+  == mps_net_cost_sh net lays shared cf false.
+Proof. exact gen_net_cost_eq. Qed.
+Theorem C05_generated_net_cost_params_exact : forall dim1 net lays names ki kw, names_okb net lays names = true -> no_unit_conv net -> onehot_layers net lays ki kw ->
+  mps_get_single_cost_gen (gmps_of dim1 net lays names) (cs_of dim1 false params_bit) (mps_single_cost_fn_map_gen (gmps_of dim1 net lays names) (cs_of dim1 false params_bit))
+  == qsum (map (node_bits (fun t kh kw' _ _ ein eout => weights_of t kh kw' ein eout) net lays false ki kw false) (seq 0 (length net))).
+Proof. exact gen_net_cost_params_exact. Qed.
+Theorem C05_generated_net_cost_ops_exact : forall dim1 net lays names ki kw, names_okb net lays names = true -> no_unit_conv net -> onehot_layers net lays ki kw ->
+  mps_get_single_cost_gen (gmps_of dim1 net lays names) (cs_of dim1 false ops_bit) (mps_single_cost_fn_map_gen (gmps_of dim1 net lays names) (cs_of dim1 false ops_bit))
+  == qsum (map (node_bits (fun t kh kw' oh ow ein eout => macs_of t kh kw' oh ow ein eout) net lays false ki kw true) (seq 0 (length net))).
+Proof. exact gen_net_cost_ops_exact. Qed.
+Theorem C05_generated_net_cost_params_exact_perchannel : forall dim1 net lays names ki, names_okb net lays names = true -> no_unit_conv net -> perchannel_layers net lays ki ->
+  mps_get_single_cost_gen (gmps_of dim1 net lays names) (cs_of dim1 false params_bit) (mps_single_cost_fn_map_gen (gmps_of dim1 net lays names) (cs_of dim1 false params_bit))
+  == qsum (map (node_pc net lays false ki false) (seq 0 (length net))).
+Proof. exact gen_net_cost_params_exact_perchannel. Qed.
+Theorem C05_generated_net_cost_ops_exact_perchannel : forall dim1 net lays names ki, names_okb net lays names = true -> no_unit_conv net -> perchannel_layers net lays ki ->
+  mps_get_single_cost_gen (gmps_of dim1 net lays names) (cs_of dim1 false ops_bit) (mps_single_cost_fn_map_gen (gmps_of dim1 net lays names) (cs_of dim1 false ops_bit))
+  == qsum (map (node_pc net lays false ki true) (seq 0 (length net))).
+Proof. exact gen_net_cost_ops_exact_perchannel. Qed.
+Theorem C05_generated_net_cost_shared_no_reuse : forall dim1 net lays names cf shared, names_okb net lays names = true -> no_unit_conv net -> (forall t, reads (cf t) costkey) ->
+  (forall i, l_reuse (lay_at lays i) = false) ->
+  mps_get_single_cost_gen (gmps_of dim1 net lays names) (cs_of dim1 shared cf) (mps_single_cost_fn_map_gen (gmps_of dim1 net lays names) (cs_of dim1 shared cf))
+  == mps_net_cost net lays cf false.
+Proof. exact gen_net_cost_shared_no_reuse. Qed.
+(* the plumbing: after `model.cost_specification = {...}` get_cost(name) evaluates the spec the name is bound to NOW with a map built for it *)
+Theorem C05_generated_get_cost_after_set : forall self specs name, NoDup (map fst specs) -> dict_has specs name = true ->
+  let self' := mps_set_cost_specification_gen self (CDict specs) in
+  let c := dict_get default_cs specs name in
+  dnas_get_cost_gen self' (Some name) = mps_get_single_cost_gen self c (mps_single_cost_fn_map_gen self c) /\
+  dnas_get_cost_ok self' (Some name) = mps_get_single_cost_ok self c (mps_single_cost_fn_map_gen self c).
+Proof. exact gen_get_cost_after_set. Qed.
+Theorem C05_generated_cost_single_spec : forall self c,
+  let self' := mps_set_cost_specification_gen self (CSingle c) in
+  dnas_cost_gen self' = mps_get_single_cost_gen self c (mps_single_cost_fn_map_gen self c) /\
+  dnas_cost_ok self' = mps_get_single_cost_ok self c (mps_single_cost_fn_map_gen self c).
+Proof. exact gen_get_cost_single. Qed.
+(* what the check evaluates next to run_net: the same four totals, and every division / look-up / assert on the way defined *)
+Theorem C05_generated_run_is_model : forall dim1 net lays names, names_okb net lays names = true -> no_unit_conv net ->
+  fst (run_net_gen dim1 net lays names) = run_net false net lays.
+Proof. exact run_net_gen_eq. Qed.
+Theorem C05_generated_run_defined : forall dim1 net lays names, names_okb net lays names = true -> lays_wfb net lays = true ->
+  snd (run_net_gen dim1 net lays names) = true.
+Proof. exact run_net_gen_ok. Qed.
+(* the two open depthwise findings, on the generated cost: what the consumers are shown in total (probing spec) does not move
+   when a depthwise layer prunes channels of its own; the intended mask propagation of the hand model lowers it *)
+Theorem C05_generated_net_pruning_behind_depthwise_refuted : exists net lays lays' names dw c s,
+  wf net = true /\ names_okb net lays names = true /\ names_okb net lays' names = true /\ nth_error net dw = Some (NDw s c) /\
+  own_out net lays' dw < own_out net lays dw /\
+  nth 2 (fst (run_net_gen false net lays' names)) (0, 0)%Z = nth 2 (fst (run_net_gen false net lays names)) (0, 0)%Z /\
+  nth 2 (run_net true net lays') (0, 0)%Z <> nth 2 (run_net true net lays) (0, 0)%Z.
+Proof. exact gen_net_pruning_behind_depthwise_refuted. Qed.
+Theorem C05_generated_net_pruning_input_group_refuted : exists net lays lays' names dw c s,
+  wf net = true /\ names_okb net lays names = true /\ names_okb net lays' names = true /\ nth_error net dw = Some (NDw s c) /\ nth_error net s = Some (NIn c) /\
+  own_out net lays' dw < own_out net lays dw /\
+  nth 2 (fst (run_net_gen false net lays' names)) (0, 0)%Z = nth 2 (fst (run_net_gen false net lays names)) (0, 0)%Z /\
+  nth 2 (run_net true net lays') (0, 0)%Z <> nth 2 (run_net true net lays) (0, 0)%Z.
+Proof. exact gen_net_pruning_input_group_refuted. Qed.
+
+(* non-vacuity: a network like C05_net_example (conv 4->4) with the conv. re-applied at a second call site (2x2 map), run by the generated functions *)
+Example C05_generated_example :
+  let l1 := mkLay [3; 3; 4; 4] [2; 8] (onehotQ 1 2) [4; 8] false (onehotQ 0 2) [] None false in
+  let l1' := mkLay [3; 3; 2; 2] [2; 8] (onehotQ 1 2) [4; 8] false (onehotQ 0 2) [] None true in
+  let l2 := mkLay [1; 1; 1; 1] [2; 8] (onehotQ 1 2) [2; 4] false (onehotQ 0 2) [] None false in
+  let net := [NIn 4; NConv 0 4 4; NProp 1; NConv 2 4 4; NFlat 2 16; NLin 4 64 2] in
+  let lays := [no_lay; l1; no_lay; l1'; no_lay; l2] in
+  names_okb net lays [0; 1; 2; 1; 4; 5]%nat = true /\ lays_wfb net lays = true /\
+  run_net_gen false net lays [0; 1; 2; 1; 4; 5]%nat = ([(3 * 3 * 4 * 4 * 4 + 64 * 2 * 2, 1); (3 * 3 * 4 * 4 * 4 * 8 * (16 + 4) + 64 * 2 * 2 * 8, 1); (4 + 4 + 64, 1); (4 + 4 + 2, 1)]%Z, true).
+Proof. repeat split; vm_compute; reflexivity. Qed.
+
 Print Assumptions C05_table_cost_onehot.
 Print Assumptions C05_mps_cost_onehot.
 Print Assumptions C05_params_bit_exact.
@@ -207,3 +347,26 @@ Print Assumptions C05_net_pruning_behind_depthwise_refuted.
 Print Assumptions C05_net_pruning_input_group_refuted.
 Print Assumptions C05_net_cost_per_invocation.
 Print Assumptions C05_net_cost_shared_no_reuse.
+Print Assumptions C05_generated_out_features_eff_is_model.
+Print Assumptions C05_generated_modified_vars_is_model.
+Print Assumptions C05_generated_spec_keys_by_type.
+Print Assumptions C05_generated_get_cost_is_model.
+Print Assumptions C05_generated_identity_add_cost.
+Print Assumptions C05_generated_cost_onehot.
+Print Assumptions C05_generated_params_bit_exact.
+Print Assumptions C05_generated_ops_bit_exact.
+Print Assumptions C05_generated_perchannel_exact_nozero.
+Print Assumptions C05_generated_perchannel_zero_scaled.
+Print Assumptions C05_generated_perchannel_zero_refuted.
+Print Assumptions C05_generated_net_cost_is_model.
+Print Assumptions C05_generated_net_cost_params_exact.
+Print Assumptions C05_generated_net_cost_ops_exact.
+Print Assumptions C05_generated_net_cost_params_exact_perchannel.
+Print Assumptions C05_generated_net_cost_ops_exact_perchannel.
+Print Assumptions C05_generated_net_cost_shared_no_reuse.
+Print Assumptions C05_generated_get_cost_after_set.
+Print Assumptions C05_generated_cost_single_spec.
+Print Assumptions C05_generated_run_is_model.
+Print Assumptions C05_generated_run_defined.
+Print Assumptions C05_generated_net_pruning_behind_depthwise_refuted.
+Print Assumptions C05_generated_net_pruning_input_group_refuted.
